@@ -154,7 +154,13 @@ fn run_case(keys: &str, evs: &[(Ev, Option<Built>)], rec: &mut Recorder) -> (Str
 }
 
 fn build_all(evs: &[Ev]) -> Option<Vec<(Ev, Option<Built>)>> {
-    evs.iter().map(|e| match e { None => Some((None, None)), Some(s) => bmp::build(s).map(|b| (Some(s.clone()), Some(b))) }).collect()
+    // wire-level variation (timestamps, Peer Down reasons) for every second case, as in the c05 engine
+    let specs: Vec<Spec> = evs.iter().flatten().cloned().collect();
+    let salt = bmp::flavour_of(&specs);
+    bmp::set_flavour(if salt & 2 == 0 { salt } else { 0 });
+    let r = evs.iter().map(|e| match e { None => Some((None, None)), Some(s) => bmp::build(s).map(|b| (Some(s.clone()), Some(b))) }).collect();
+    bmp::set_flavour(0);
+    r
 }
 
 fn main() {
